@@ -44,7 +44,7 @@ for c in checks:
     ev = "evidence/%s.json" % c["property_id"]
     if os.path.exists(ev):
         e = json.load(open(ev))
-        if e["coverage"]["obligations"] == e["coverage"]["discharged"] + e["coverage"].get("not_discharged_known_findings", 0):
+        if e["coverage"]["obligations"] == e["coverage"]["discharged"]:
             base[c["property_id"]] = e["coverage"]["obligation_names"]
 json.dump(base, open("baseline_obligations.json", "w"), indent=0)
 print("MANIFEST: %d checks, %d not_applicable; baseline for %s" % (len(checks), len(na), sorted(base)))
